@@ -2,5 +2,5 @@
 EXTENDS Wal, Json
 \* client-level histories (Write / Flush / Restart) for replay into the real engine
 ExportLen == 6
-Export == (Len(hist) = ExportLen) => PrintT(<<"TRACE", ToJson(hist)>>)
+Export == (Len(hist) \in {ExportLen, ExportLen + 1}) => PrintT(<<"TRACE", ToJson(hist)>>)
 =============================================================================
